@@ -465,7 +465,16 @@ fn timeout_for_k(k: u64) -> u64 {
     }
 }
 
-fn run_controlled(work: &Path, sc: &Sched, src: &Sources) -> String {
+/// Testing aid for the stall handling: `C19_TEST_LIMIT_MS=<ms>` replaces every wall-clock limit by
+/// `<ms> x patience`, so that first attempts stall artificially.
+fn test_limit(normal: Duration, patience: u64) -> Duration {
+    match std::env::var("C19_TEST_LIMIT_MS").ok().and_then(|v| v.parse::<u64>().ok()) {
+        Some(ms) => Duration::from_millis(ms * patience),
+        None => normal,
+    }
+}
+
+fn run_controlled(work: &Path, sc: &Sched, src: &Sources, patience: u64) -> String {
     setup_case(work, &sc.setup, src);
     let mut ctl = Ctl::new(work);
     let tmo = timeout_for_k(sc.k);
@@ -481,7 +490,7 @@ fn run_controlled(work: &Path, sc: &Sched, src: &Sources) -> String {
             child_of.push(i);
         }
     }
-    let limit = Duration::from_secs(20);
+    let limit = test_limit(Duration::from_secs(20 * patience), patience);
     let mut points: Vec<String> = Vec::new();
     let mut problem = String::new();
     // every loader first arrives at its first point
@@ -553,7 +562,7 @@ fn run_controlled(work: &Path, sc: &Sched, src: &Sources) -> String {
     let finallib = probe_lib(work);
     let lockleft = lock_path(work).exists();
     let temps = count_temps(work);
-    let later = later_load(work, Some(if sc.k == 0 { 0 } else { 400 }), Duration::from_secs(60));
+    let later = later_load(work, Some(if sc.k == 0 { 0 } else { 400 }), Duration::from_secs(60 * patience));
     format!(
         "first={} points={} results={} finallib={} lockleft={} temps={} later={} leftover={} problem={}",
         first.join(";"),
@@ -617,14 +626,14 @@ fn parse_free(line: &str) -> Option<Free> {
     })
 }
 
-fn run_free(work: &Path, f: &Free, src: &Sources, hook: bool) -> String {
+fn run_free(work: &Path, f: &Free, src: &Sources, hook: bool, patience: u64) -> String {
     setup_case(work, &f.setup, src);
     let tmo = if hook { Some(1500u64) } else { None };
     // Without the hook the lock timeout is the real 30 s.  The quick tier does not sit it out:
     // callers still running after 6 s are killed by the harness (reported as `dead`, and the case
     // counts as one with crashes); the thorough tier waits for the real timeout.
     let patient = hook || tier_is_thorough();
-    let limit = Duration::from_secs(if hook { 30 } else if patient { 50 } else { 6 });
+    let limit = test_limit(Duration::from_secs(patience * if hook { 30 } else if patient { 50 } else { 6 }), patience);
     let mut children = Vec::new();
     let mut idsets = Vec::new();
     for p in 0..f.procs {
@@ -743,7 +752,7 @@ fn main() {
     let mut variant = "unknown";
     if hook {
         let disc = parse_sched("sched disc lib=stale lock=1 temp=0 n=1 broken=0 K=0 steps=0:check,0:lock,0:poll").unwrap();
-        let r = run_controlled(&root.join("disc"), &disc, &src);
+        let r = run_controlled(&root.join("disc"), &disc, &src, 2);
         let _ = fs::remove_dir_all(root.join("disc"));
         // neither answer: the code implements something else — compare it with the protocol of
         // the current tree (recheck); the disagreements are then the report
@@ -856,18 +865,41 @@ fn main() {
         hs.push(std::thread::spawn(move || loop {
             let job = { queue.lock().unwrap().pop() };
             let Some((idx, job)) = job else { break };
-            let work = root.join(format!("w{w}"));
+            // one directory per case, never reused: an orphaned `cc` of a killed loader may still be
+            // writing into its case's directory after the case ended
+            let _ = w;
+            let work = root.join(format!("case{idx}"));
             let line = match job {
                 Job::S(s) => {
                     // a loader that does not show up within the limit (machine overloaded) is retried once
-                    let mut r = run_controlled(&work, &s, &src);
-                    if r.contains("-hang-") || r.contains("-never-arrived") {
-                        r = run_controlled(&work, &s, &src);
+                    // Verdicts must not depend on wall-clock: a step that does not complete within the
+                    // limit (stalled machine) is retried in a fresh directory with a 4x limit; if it
+                    // stalls again the case is reported as inconclusive (`timing=1`) and counted.
+                    let mut r = run_controlled(&work, &s, &src, 1);
+                    if r.contains("-hang-") || r.contains("-never-arrived") || r.contains("later=hang") {
+                        let _ = fs::remove_dir_all(&work);
+                        r = run_controlled(&root.join(format!("case{idx}r")), &s, &src, 4);
+                        let _ = fs::remove_dir_all(root.join(format!("case{idx}r")));
+                        if r.contains("-hang-") || r.contains("-never-arrived") || r.contains("later=hang") {
+                            r.push_str(" timing=1");
+                        } else {
+                            r.push_str(" retried=1");
+                        }
                     }
                     format!("spec {} {}\ncase {} kind=ctl {} {}", s.id, s.raw, s.id, s.raw.splitn(3, ' ').nth(2).unwrap_or(""), r)
                 }
                 Job::F(f) => {
-                    let r = run_free(&work, &f, &src, hook);
+                    let mut r = run_free(&work, &f, &src, hook, 1);
+                    if r.contains("hang") {
+                        let _ = fs::remove_dir_all(&work);
+                        r = run_free(&root.join(format!("case{idx}r")), &f, &src, hook, 4);
+                        let _ = fs::remove_dir_all(root.join(format!("case{idx}r")));
+                        if r.contains("hang") {
+                            r.push_str(" timing=1");
+                        } else {
+                            r.push_str(" retried=1");
+                        }
+                    }
                     let spec = free_spec(&f);
                     format!("spec {} {}\ncase {} kind=free {} {}", f.id, spec, f.id, spec.splitn(3, ' ').nth(2).unwrap_or(""), r)
                 }
